@@ -144,6 +144,11 @@ func c09leafVariants(tag string, base *Scn, mainFile string) []c09doc {
 				emit("zero/" + tag + path)
 				set(x)
 			}
+			if x != -1 {
+				set(-1) // "unlimited" / sentinel values
+				emit("neg/" + tag + path)
+				set(x)
+			}
 		case float64:
 			if x != 0 {
 				set(0.0)
@@ -272,7 +277,7 @@ var c09variants = []c09variant{
 func c09attr(id string) string {
 	parts := strings.Split(id, "/")
 	a := parts[len(parts)-1]
-	if parts[0] == "flip" || parts[0] == "zero" {
+	if parts[0] == "flip" || parts[0] == "zero" || parts[0] == "neg" {
 		// rich.services.web.depends_on.cache.required -> depends_on.required style key: drop doc, service and map keys that are names
 		segs := strings.Split(a, ".")
 		if len(segs) > 3 && segs[1] == "services" {
